@@ -104,6 +104,7 @@ class State:
         self.fused = []
         self.code = []              # emitted instruction stream of this path (ops and summary blobs)
         self.emitted = False
+        self.defs0 = False          # a name was declared in the scope that was current at entry (not inside a scope / context opened since)
 
     def clone(self):
         s = copy.copy(self)
